@@ -336,7 +336,29 @@ def run(ctx):
                        {'name': 't%d' % j, 'type': ('table', tb_), 'attrs': []}, {'name': 'u%d' % j, 'type': ('union', un_), 'attrs': []},
                        {'name': 'vs%d' % j, 'type': ('vec', ('struct', st_)), 'attrs': []}, {'name': 've%d' % j, 'type': ('vec', ('enum', en_)), 'attrs': []},
                        {'name': 'vt%d' % j, 'type': ('vec', ('table', tb_)), 'attrs': []}, {'name': 'vu%d' % j, 'type': ('vec', ('union', un_)), 'attrs': []}]
-    minis = [mini('msamenames', [same[k] for k in (8, 1, 4, 11, 0, 9, 6, 3, 2, 5, 10, 7)] + [ut_], ut_), mini('monetable', [k1], k1), mini('monetableunion', [k2, uk2], k2), mini('monestruct', [s2]), mini('moneenumtable', [e2, t3], t3),
+    # several key fields per table (adjacent, separated, with primary_key, with explicit ids): exactly one field carries `key` in the bfbs
+    def ktab(name, spec, ids=None):
+        t_ = G.Table(name, [])
+        for j, (nm_, ty_, fl_) in enumerate(spec):
+            f_ = {'name': nm_, 'type': ty_, 'attrs': []}
+            if fl_: f_[fl_] = True
+            if ids: f_['id'] = ids[j]
+            t_.fields.append(f_)
+        return t_
+    I = ('scalar', 'int'); S_ = ('string',)
+    kt = [ktab('K2adj', [('a', I, 'key'), ('b', S_, 'key'), ('c', I, None)]),
+          ktab('K2sep', [('z', I, 'key'), ('m', I, None), ('a', S_, 'key')]),
+          ktab('K3', [('k1', I, 'key'), ('x', I, None), ('k2', ('scalar', 'ulong'), 'key'), ('y', S_, None), ('k3', S_, 'key')]),
+          ktab('Kprim', [('p', I, 'key'), ('q', I, None), ('r', S_, 'primary_key'), ('s', I, 'key')]),
+          ktab('Kids', [('c', I, 'key'), ('b', I, None), ('a', S_, 'key'), ('d', I, 'key')], ids=[3, 1, 0, 2]),
+          ktab('Kprimids', [('c', I, 'key'), ('b', I, 'primary_key'), ('a', S_, 'key')], ids=[2, 1, 0])]
+    # more services than objects, calls declared out of alphabetical order
+    tsv = G.Table('Tsv', []); tsv.fields = [{'name': 'a', 'type': I, 'attrs': []}]
+    svs = []
+    for j, nm_ in enumerate(('SvcC', 'SvcA', 'SvcD', 'SvcB')):
+        sv_ = G.Service(nm_, ['Rpc'] if j % 2 else []); sv_.calls = [(c_, tsv, tsv) for c_ in (('Zeta', 'Mid', 'Alpha', 'Beta') if j % 2 == 0 else ('Yy', 'Bb', 'Xx'))]
+        svs.append(sv_)
+    minis = [mini('mmultikey', kt, kt[0]), mini('mmanyservices', [svs[0], tsv] + svs[1:], tsv), mini('msamenames', [same[k] for k in (8, 1, 4, 11, 0, 9, 6, 3, 2, 5, 10, 7)] + [ut_], ut_), mini('monetable', [k1], k1), mini('monetableunion', [k2, uk2], k2), mini('monestruct', [s2]), mini('moneenumtable', [e2, t3], t3),
              mini('mempty', []), mini('menums', [e1]), mini('mstructs', [s1]), mini('munion', [u1]), mini('mservice', [sv1]), mini('mtable0', [t0], t0),
              mini('menumsvc', [e1, sv1]), mini('munionsib', [ux, tx], tx)]
     if not ctx.replay_in:
